@@ -76,6 +76,19 @@ pub struct SimDisk {
 }
 
 pub fn normalize(p: &Path) -> PathBuf {
+    // relative paths resolve against the simulated process's working directory
+    let joined;
+    let p = if p.is_relative() {
+        match crate::env::cwd() {
+            Some(cwd) => {
+                joined = cwd.join(p);
+                joined.as_path()
+            }
+            None => p,
+        }
+    } else {
+        p
+    };
     let mut out = PathBuf::new();
     for c in p.components() {
         match c {
